@@ -417,6 +417,30 @@ func ruleGroupEntries(r *Run) {
 			os.Fail(r.pos(sortCall.Pos()), "comparator orders by %s ascending=%v, expected T ascending", fld, asc)
 		}
 	}
+	// entries are only ever added: every store to a stream's Values is an append (composite
+	// literal stores of a new stream aside); nothing removes or merges collected entries
+	allInstrs(fn, func(in ssa.Instruction) {
+		st, ok := in.(*ssa.Store)
+		if !ok {
+			return
+		}
+		f, base, ok := fieldNameOf(st.Addr)
+		if !ok || f != "Values" || typeKey(derefType(base.Type())) != "Stream" {
+			return
+		}
+		v := unspill(st.Val)
+		if c, ok := v.(*ssa.Call); ok && isAppend(c) {
+			return
+		}
+		if isNilConst(v) {
+			return
+		}
+		if _, ok := v.(*ssa.MakeSlice); ok {
+			return
+		}
+		sgood = false
+		os.Fail(r.pos(st.Pos()), "a stream's Values are replaced by %s: collected entries may be removed or merged", describe(v, 0))
+	})
 	if nSucc == 0 {
 		os.Fail(r.pos(fn.Pos()), "no success return found")
 	} else if sgood && mapForm && sortCall == nil {
